@@ -22,6 +22,23 @@ Theorem C07_history_generic_all_results :
 Proof. exact results_independent. Qed.
 Print Assumptions C07_history_generic_all_results.
 
+(* ---- state nobody writes (class metadata such as member_data_items_) is a constant: reading it keeps no_interference ---- *)
+Theorem C07_constants_keep_no_interference :
+  forall (C call : Type) (Rd Wr : call -> list C), no_interference C call Rd Wr ->
+  forall Kc : list C, (forall x c, In c Kc -> ~ In c (Wr x)) ->
+    no_interference C call (fun x => (Rd x ++ Kc)%list) Wr.
+Proof. exact (fun C call Rd Wr H Kc HK => constants_keep_no_interference C call Rd Wr H Kc HK). Qed.
+Print Assumptions C07_constants_keep_no_interference.
+
+(* ---- a keyed memo whose values are a function of the key and of constants (GeneratedsSuperSuper.__all_members_)
+        is transparent: any history of lookups returns f on each key ---- *)
+Theorem C07_memo_transparent :
+  forall (K V : Type) (keqb : K -> K -> bool) (f : K -> V), (forall a b, keqb a b = true -> a = b) ->
+  forall ks m, mconsistent K V keqb f m ->
+    fst (mrun K V keqb f ks m) = map f ks /\ mconsistent K V keqb f (snd (mrun K V keqb f ks m)).
+Proof. exact memo_transparent. Qed.
+Print Assumptions C07_memo_transparent.
+
 (* ---- the loader model satisfies the footprint conditions for EVERY layout of the defaults (tie B2-B3) ---- *)
 Theorem C07_loaders_footprint :
   forall ms sh fs fuel,
@@ -40,8 +57,8 @@ Print Assumptions C07_history.
 
 (* ---- and a shared `already_included` default of read_neuroml2_string is observable (witness replayed on the code) ---- *)
 Theorem C07_history_shared_refuted :
-  forall mf mi me af ht,
-  let ms := {| m_file := mf; m_string := DSharedList; m_inner := mi |} in
+  forall mf mi mh me af ht,
+  let ms := {| m_file := mf; m_string := DSharedList; m_inner := mi; m_h5 := mh |} in
   let sh := {| sh_mark_entry := me; sh_append_first := af; sh_h5_threads := ht |} in
   exists fs hist x,
     fst (exec_call 10 ms sh fs x (run_hist 10 ms sh fs hist w_empty)) <> fst (exec_call 10 ms sh fs x w_empty)
@@ -78,13 +95,21 @@ Theorem C07_builder_interleave_refuted :
 Proof. exact builder_interleave_refuted. Qed.
 Print Assumptions C07_builder_interleave_refuted.
 
+(* ---- each of the seven dicts matters: that dict alone shared -> a (directed, stored) schedule separates A from its solo run ---- *)
+Theorem C07_each_dict_matters :
+  forall eg f, bdump (only_shared f) WA (brun eg (only_shared f) (directed_sched f) bsys0)
+               <> solo_dump eg (ops_of WA (directed_sched f)).
+Proof. exact each_dict_matters. Qed.
+Print Assumptions C07_each_dict_matters.
+
 (* ==== INSTANCE ==== (everything below is about the table regenerated from the working tree) *)
-From Run Require Import Gen_C07 Inst_C07_defaults Inst_C07_fields Inst_C07_globals.
+From Run Require Import Gen_C07 Inst_C07_defaults Inst_C07_fields Inst_C07_globals Inst_C07_classmeta.
 
 Theorem C07_state_ok : state_ok Gen_C07.table = true.
 Proof.
   exact (proj2 (state_ok_split Gen_C07.table)
-               (conj Inst_C07_defaults.defaults_ok (conj Inst_C07_fields.fields_ok Inst_C07_globals.globals_ok))).
+               (conj Inst_C07_defaults.defaults_ok (conj Inst_C07_fields.fields_ok
+                  (conj Inst_C07_globals.globals_ok Inst_C07_classmeta.classmeta_ok)))).
 Qed.
 Print Assumptions C07_state_ok.
 
@@ -116,3 +141,9 @@ Print Assumptions C07_every_field_is_per_instance.
 Theorem C07_no_written_global_is_read : globals_read Gen_C07.table = [].
 Proof. exact Inst_C07_globals.globals_ok. Qed.
 Print Assumptions C07_no_written_global_is_read.
+
+(* the metadata lists of the generated classes are never mutated at run time, and no memo value aliases one *)
+Theorem C07_class_metadata_is_constant :
+  forall m, In m (st_classmeta Gen_C07.table) -> cm_mutated m = false /\ cm_aliases m = false.
+Proof. exact (proj1 (classmeta_ok_spec Gen_C07.table) Inst_C07_classmeta.classmeta_ok). Qed.
+Print Assumptions C07_class_metadata_is_constant.
